@@ -87,20 +87,34 @@ def run(ctx: Ctx):
                        "identifies the requester's connection", floor=1)
     ra = nc.methods.get("route_answer")
     ctx.use(ra)
-    cons = "route_answer:search-by-hop-by-hop-id"
     searches = []
     for n in A.walk_no_nested(ra.node):
         if isinstance(n, ast.For) and "self._peer_waiting_answer" in ast.unparse(n.iter):
             for t in ast.walk(n):
                 if isinstance(t, ast.Compare) and len(t.ops) == 1 and isinstance(t.ops[0], ast.In):
-                    searches.append(n)
+                    searches.append((n, t.left))
                     break
-    ctx.inst(cons, sample={"outer_level_searches": len(searches)})
+    both = False
     if searches:
-        ctx.fail(cons, ra.loc(searches[0]),
-                 "route_answer finds the waiting host by searching every host's table for the "
-                 "answer's hop-by-hop id: hop-by-hop ids are chosen by the remote peers, so two "
+        ktxt = A.resolve_local_chain(ra.node, searches[0][1])
+        both = "hop_by_hop_identifier" in ktxt and "end_to_end_identifier" in ktxt
+    cons = "route_answer:search-by-message-id" if both else "route_answer:search-by-hop-by-hop-id"
+    ctx.inst(cons, sample={"outer_level_searches": len(searches)})
+    if searches and both:
+        ctx.fail(cons, ra.loc(searches[0][0]),
+                 "route_answer finds the waiting connection by searching every connection's table "
+                 "for the answer's (hop-by-hop, end-to-end) identifier pair: both identifiers are "
+                 "chosen by the remote peers, so two connections with an outstanding request under "
+                 "the same pair are indistinguishable and the answer for one request is transmitted "
+                 "on the other connection (the answer object carries nothing that names the "
+                 "connection its request arrived on)",
+                 expected="lookup [requester connection][message id]",
+                 observed="for ident, ids in table.items(): if id in ids")
+    elif searches:
+        ctx.fail(cons, ra.loc(searches[0][0]),
+                 "route_answer finds the waiting host by searching every table for the "
+                 "answer's hop-by-hop id alone: hop-by-hop ids are unique per connection only, so two "
                  "peers with an outstanding request under the same id are indistinguishable and "
                  "the answer for peer B's request is transmitted to peer A",
-                 expected="lookup [requester host][hop-by-hop id]",
+                 expected="lookup [requester connection][hop-by-hop id, end-to-end id]",
                  observed="for host, ids in table.items(): if id in ids")
